@@ -26,6 +26,12 @@ SameComp(rs) == \A i, j \in 1..Len(rs) : IsRet(rs[i]) = IsRet(rs[j]) /\ (rs[i].o
 
 RowCompPairs(pairs) == CompFromPairs([ q \in 1..Len(pairs) |-> <<pairs[q][1], pairs[q][2] * E4>> ])
 
+(* mass of a composition returned by the library ([sym, neg, c0, c1, c2] entries) from the independent table *)
+CountMass(m, e) == LET v == FAdd(FMulInt(m, e.c0), FAdd(FDivE4(FMulInt(m, e.c1)), FDivE4(FDivE4(FMulInt(m, e.c2))))) IN
+                   IF e.neg THEN FNeg(v) ELSE v
+Comp8Known(comp) == \A q \in 1..Len(comp) : KnownMono(comp[q].sym)
+Comp8Mass(comp) == FSum([ q \in 1..Len(comp) |-> CountMass(MonoMass(comp[q].sym), comp[q]) ])
+
 SpellFails(ev) ==
     LET row == ev.row IN
     (IF \E q \in 1..Len(ev.spellings) : ev.spellings[q] \notin Spellings(row) THEN {"MACHINERY_spelling_not_documented"} ELSE {})
@@ -36,6 +42,10 @@ SpellFails(ev) ==
     (* the entry resolves to its own table row: tabulated monoisotopic mass *)
     \cup (IF row.hasMono /\ \E q \in 1..Len(ev.mono) : ev.mono[q].out = "ret" /\ ~FWithin(ev.mono[q].v, row.mono, Micro(10))
           THEN {"resolved_mass_is_not_the_rows_mass"} ELSE {})
+    (* the composition the library reports for the entry weighs what the table says (Unimod, 1e-3) *)
+    \cup (IF row.db = "unimod" /\ row.hasMono /\ ev.compFirstOk /\ Comp8Known(ev.compFirst)
+             /\ ~FWithin(Comp8Mass(ev.compFirst), row.mono, Micro(1000))
+          THEN {"reported_composition_does_not_weigh_the_tabulated_mass"} ELSE {})
     (* Unimod: tabulated mass = mass of the tabulated composition (only rows whose composition is elemental) *)
     \cup (IF row.db = "unimod" /\ row.hasComp /\ Resolvable(RowCompPairs(row.comp), TRUE)
              /\ ~FWithin(row.mono, CompMass(RowCompPairs(row.comp), TRUE), Micro(1000))
